@@ -92,7 +92,7 @@ Time == now < MaxTime /\ now' = now + 1 /\ UNCHANGED <<q, nextId, lost, started,
 Demands == [sn : 0..MaxDemand, mn_allocs : {0}, mn_per : {0}]
 Next ==
   \/ \E d \in Demands : \E n \in 0..Backlog : \E results \in [1..n -> BOOLEAN] : Tick(d, results) /\ act' = "Tick"
-  \/ \E a \in DOMAIN q.allocs : \E s \in {"queued", "running", "finished", "failed", "missing", "error"} : Status(a, s) /\ act' = "Status"
+  \/ \E a \in DOMAIN q.allocs : \E s \in {"queued", "running", "finished", "failed", "error"} : Status(a, s) /\ act' = "Status"
   \/ \E a \in DOMAIN q.allocs : \E w \in Workers : (Connect(a, w) \/ Lose(a, w, TRUE) \/ Lose(a, w, FALSE)) /\ act' = "Worker"
   \/ (Pause \/ Time) /\ act' = "User"
   \/ Resume /\ act' = "Resume"
